@@ -97,6 +97,14 @@ def call_via_session(case):
         for t in tasks:
             tl.append({"payload": [int(x) - 1 for x in t["sel"]], "start": int(t["start"]) if t["kind"] == "idx" else pos})
             pos += len(t["sel"])
+        # how many of the drawn rows are used, and from where in the draw, is the sampler's business (rng.choice(N, n) draws exactly
+        # what is used, rng.permutation(N)[:n] a prefix of what it draws): the array to be covered is the contiguous stretch of the
+        # recorded draw that the tasks, taken together, reproduce - if there is one; otherwise the whole draw (and the clause fails)
+        flat = [x for t in tl for x in t["payload"]]
+        m = len(flat)
+        off = next((k for k in range(0, len(arr) - m + 1) if arr[k:k + m] == flat), None) if 0 < m <= len(arr) else None
+        if off is not None:
+            arr = arr[off:off + m]
         tr.update(arrkind="arr", arr=arr, n=len(arr), tasks=tl)
     else:
         if any(t["kind"] != "range" for t in tasks):
